@@ -26,23 +26,32 @@ def processLine (line : String) : String :=
     let body := (Sha256.fromHex (str j "body")).getD []
     let reqs := arr j "requests"
     let direct := Hk.Egress.trimWS (str j "direct")
-    let m : Option (String × String) := match mode with
-      | none => none
-      | some md => sign Sha256.hmac load md (vs.map (fun v => { v with ref := Hk.Egress.trimWS v.ref })) direct (int j "now") method (str j "escapedPath") body
-    match reqs.head?, m with
-    | none, none => "ok"
-    | some _, none => s!"PROP C17 sent-without-valid-signing-secret in={tag}"
-    | none, some _ => s!"DIVERGE nothing-sent in={tag} model={repr m}"
-    | some g, some (ts, sig) =>
+    let vs' := vs.map (fun v => { v with ref := Hk.Egress.trimWS v.ref })
+    let signAt := fun (t : Int) (meth path : String) (b : Bytes) => match mode with
+      | none => (none : Option (String × String))
+      | some md => sign Sha256.hmac load md vs' direct t meth path b
+    -- the instants the deliverer read its clock at: one fixed instant, or (ticking clock) several
+    let instants : List Int := if has j "reads" then (arr j "reads").map asInt else [int j "now"]
+    let ticking := has j "reads"
+    let m : Option (String × String) := signAt (int j "now") method (str j "escapedPath") body
+    let cands := instants.map (fun t => signAt t method (str j "escapedPath") body)
+    match reqs.head? with
+    | none =>
+      if ticking then (if instants.isEmpty || cands.any (·.isNone) then "ok" else s!"DIVERGE nothing-sent in={tag}")
+      else (match m with | none => "ok" | some _ => s!"DIVERGE nothing-sent in={tag} model={repr m}")
+    | some g =>
       if str g "body" != str j "body" then s!"PROP C17,C07 body-sent-differs in={tag}"
-      else if str g "ts" != ts || str g "sig" != sig then s!"PROP C17 wrong-signature-or-timestamp in={tag} expected_ts={ts} expected_sig={sig}"
+      else if !cands.any (fun c => c == some (str g "ts", str g "sig")) then
+        if cands.all (·.isNone) then s!"PROP C17 sent-without-valid-signing-secret in={tag}"
+        else if ticking then s!"PROP C17 stamp-and-signing-secret-do-not-belong-to-one-instant in={tag} read-instants={instants}"
+        else s!"PROP C17 wrong-signature-or-timestamp in={tag} expected={repr m}"
       else
-        -- every further hop must carry a signature over *its own* path
+        -- every further hop must carry a signature over *its own* method, path and body (at one of the instants read)
         let stale := (reqs.drop 1).any (fun h =>
-          match sign Sha256.hmac load (mode.getD .newest) (vs.map (fun v => { v with ref := Hk.Egress.trimWS v.ref })) direct (int j "now")
-                  (str h "method") (str h "escapedPath") ((Sha256.fromHex (str h "body")).getD []) with
-          | some (ts', sig') => str h "ts" != ts' || str h "sig" != sig'
-          | none => true)
+          !instants.any (fun t =>
+            match signAt t (str h "method") (str h "escapedPath") ((Sha256.fromHex (str h "body")).getD []) with
+            | some (ts', sig') => str h "ts" == ts' && str h "sig" == sig'
+            | none => false))
         if stale then s!"PROP C17 redirect-hop-signature-stale in={tag}" else "ok"
 
 end Hk.DriveSigning
